@@ -10,7 +10,7 @@ ID = "C15"
 LEVEL = "model_checking"
 TECHNIQUE = "explicit enumeration of all event histories (execute / check-condition / replug / unplug / close-failure, then a closing event) up to a depth bound on the real SCSIDevice over real files, in lock-step with a handle reference model; invariant evaluated inside the stand-in binding on every command"
 RULE = ("all sequences of up to D events (D=5 quick, 6 thorough) over {execute GOOD, execute CHECK CONDITION, replug (node replaced by a new "
-        "inode), unplug, sabotage (next close() of the live handle fails with EBADF)}, each followed by every closing event {none, close(), "
+        "inode), unplug, sabotage (next close() of the live handle fails with EBADF), open-fault (the next open() of the device path fails once with EACCES)}, each followed by every closing event {none, close(), "
         "with-block normal exit, with-block exit by exception, SCSI facade with-block exit}, x replug detection {on, off} x {read-only, "
         "read-write}; histories one event shorter also with the device path being a symbolic link to the node that is replaced, and with the node being a character special file replaced by one of the same device number; plus ISCSIDevice close/with/disconnect histories. states = distinct (reference-model state, observed handle set) "
         "pairs; transitions = events executed on the real device. Non-trivial = history contains replug, unplug or sabotage.")
@@ -19,7 +19,7 @@ ASSUMPTIONS = [
     "close failure is produced by closing the descriptor behind the library's back (the library's own file.close() then raises EBADF)",
     "when closing the stale handle fails, both 'error raised, fresh handle open, command not sent' and 'command sent through the fresh handle' are accepted; use of a device after close() is outside the property",
 ]
-EVENTS = ["x", "c", "r", "u", "s"]        # exec good, exec check condition, replug, unplug, sabotage
+EVENTS = ["x", "c", "r", "u", "s", "o"]   # exec good, exec check condition, replug, unplug, sabotage (next close fails), next open() of the path fails once
 CLOSERS = ["none", "close", "with_ok", "with_exc", "scsi_exit"]
 
 
@@ -63,10 +63,23 @@ def run_history(detect, rw, events, closer, obs=None, symlink=False, chr=False):
     node = nodes.Node(lambda g: Target(), symlink=symlink, chr=chr)
     registry.sgio_hooks.append(hook)
     dev = None
+    import builtins
+
+    import pyscsi.pyscsi.scsi_device as devmod
+    armed = [False]
+
+    def failing_open(file, *a, **k):
+        # the library's module-level name 'open' (harness-side, removed again below): fails once with EACCES when armed, as a node
+        # whose permissions udev has not set yet does
+        if armed[0] and file == node.path:
+            armed[0] = False
+            raise PermissionError(13, "Permission denied", file)
+        return builtins.open(file, *a, **k)
     try:
         dev = SCSIDevice(node.path, rw, detect)
+        devmod.open = failing_open
         # reference model
-        m = {"present": True, "gen": 1, "hgen": 1, "sab": False}
+        m = {"present": True, "gen": 1, "hgen": 1, "sab": False, "closed": False}
         fl = dev._file if hasattr(dev, "_file") else None
         want_mode = "rb+" if rw else "rb"
         for i, ev in enumerate(events):
@@ -81,10 +94,14 @@ def run_history(detect, rw, events, closer, obs=None, symlink=False, chr=False):
                 m["present"] = False
             elif ev == "s":
                 hs = node.open_handles()
-                if m["sab"] or len(hs) != 1:
+                if m["sab"] or len(hs) != 1 or armed[0]:
                     continue
                 os.close(hs[0][0])
                 m["sab"] = True
+            elif ev == "o":
+                if m["sab"] or armed[0]:
+                    continue
+                armed[0] = True
             else:
                 tgt = node.targets[node.generation]
                 if ev == "c":
@@ -95,11 +112,13 @@ def run_history(detect, rw, events, closer, obs=None, symlink=False, chr=False):
                         t.script[:] = []
                 n0 = len(seen)
                 cmd = TestUnitReady(dev.opcodes.TEST_UNIT_READY)
+                was_armed = armed[0]
                 try:
                     dev.execute(cmd)
                     oc = ("ret", None)
                 except Exception as e:   # noqa: BLE001
                     oc = ("exc", e)
+                fired = was_armed and not armed[0]
                 sent = seen[n0:]
                 # ---- invariant: whatever reached the binding used the handle the model prescribes
                 if detect:
@@ -118,7 +137,13 @@ def run_history(detect, rw, events, closer, obs=None, symlink=False, chr=False):
                     if oc[0] != "exc" or not isinstance(oc[1], OSError) or sent:
                         out.append(("vanished_node_not_reported", "%s: node absent, outcome %s, sent=%d" % (where, _oc(oc), len(sent))))
                 elif detect and m["hgen"] != m["gen"]:
-                    if m["sab"]:
+                    if fired:
+                        # the open of the new node failed: the caller must see that error, nothing may have been sent, no handle is left;
+                        # the next command tries again
+                        if oc[0] != "exc" or not isinstance(oc[1], OSError) or sent:
+                            out.append(("failed_open_not_reported", "%s: opening the new node failed, outcome %s, sent=%d" % (where, _oc(oc), len(sent))))
+                        m["closed"] = True
+                    elif m["sab"]:
                         # close of the stale handle fails: error or success both fine, but the fresh handle must now be open
                         if oc[0] == "exc" and not isinstance(oc[1], OSError):
                             out.append(("close_failure_wrong_error", "%s: outcome %s" % (where, _oc(oc))))
@@ -126,11 +151,12 @@ def run_history(detect, rw, events, closer, obs=None, symlink=False, chr=False):
                             out.append(("returned_without_sending", "%s" % where))
                     else:
                         out += _expect_sent(ev, oc, sent, where)
-                    m["hgen"], m["sab"] = m["gen"], False
-                    hs = node.open_handles()
-                    if [g for _, g in hs] != [m["gen"]]:
-                        out.append(("fresh_handle_not_open_or_stale_leaked", "%s: open handles by generation %r, expected exactly [%d]"
-                                    % (where, [g for _, g in hs], m["gen"])))
+                    if not fired:
+                        m["hgen"], m["sab"], m["closed"] = m["gen"], False, False
+                        hs = node.open_handles()
+                        if [g for _, g in hs] != [m["gen"]]:
+                            out.append(("fresh_handle_not_open_or_stale_leaked", "%s: open handles by generation %r, expected exactly [%d]"
+                                        % (where, [g for _, g in hs], m["gen"])))
                 else:
                     if m["sab"]:
                         if oc[0] != "exc" or sent:
@@ -139,11 +165,11 @@ def run_history(detect, rw, events, closer, obs=None, symlink=False, chr=False):
                         out += _expect_sent(ev, oc, sent, where)
             # ---- after every event: handle population agrees with the model
             hs = [g for _, g in node.open_handles()]
-            want = [] if m["sab"] else [m["hgen"]]
+            want = [] if (m["sab"] or m["closed"]) else [m["hgen"]]
             if hs != want:
                 out.append(("handle_population", "%s: open handles (by generation) %r, model expects %r" % (where, hs, want)))
             if obs is not None:
-                obs.append((m["present"], m["hgen"] == m["gen"], m["sab"], tuple(hs and [hs[0] == m["gen"]])))
+                obs.append((m["present"], m["hgen"] == m["gen"], m["sab"], m["closed"], armed[0], tuple(hs and [hs[0] == m["gen"]])))
         # open mode of the live handle
         if not m["sab"] and hasattr(dev, "_file") and dev._file is not None and not dev._file.closed:
             if dev._file.mode != want_mode:
@@ -190,6 +216,8 @@ def run_history(detect, rw, events, closer, obs=None, symlink=False, chr=False):
                     os.close(probe)
     finally:
         registry.sgio_hooks.remove(hook)
+        if "open" in vars(devmod):
+            del devmod.open
         # release whatever is left so the next history starts clean
         for fd, _ in node.open_handles():
             try:
@@ -314,13 +342,13 @@ def run_partition(part, tier, seed):
     for suf in suffixes:
         events = prefix + suf
         for closer in CLOSERS:
-            do(["sg", detect, rw, events, closer], any(e in events for e in "rus"), len(events))
+            do(["sg", detect, rw, events, closer], any(e in events for e in "ruso"), len(events))
         # the same history with the device addressed through a symbolic link to the node (as /dev/disk/by-id/ paths are)
         if len(events) <= D - 1:
-            do(["sg", detect, rw, events, "close", 1], any(e in events for e in "rus"), len(events))
+            do(["sg", detect, rw, events, "close", 1], any(e in events for e in "ruso"), len(events))
             # ... and with the node being a character special file whose replacement has the same device number (as a re-plugged /dev/sgN has)
             if nodes.chr_supported():
-                do(["sg", detect, rw, events, "close", 2], any(e in events for e in "rus"), len(events))
+                do(["sg", detect, rw, events, "close", 2], any(e in events for e in "ruso"), len(events))
             else:
                 acc.extra["character_special_nodes"] = ["not available in this environment (mknod refused): histories over character special files skipped"]
     return acc
